@@ -23,12 +23,16 @@ func rfcSendable(code int) bool {
 }
 
 type closeCase struct {
-	Kind   string `json:"kind"` // local | peer | order
-	Client bool   `json:"client"`
-	Code   int    `json:"code"`
-	Reason string `json:"reason_hex"`
-	Order  string `json:"order,omitempty"` // e.g. "close,closenow,close"
-	PendingRead bool `json:"pending_read,omitempty"`
+	Kind        string `json:"kind"` // local | peer | order
+	Client      bool   `json:"client"`
+	Code        int    `json:"code"`
+	Reason      string `json:"reason_hex"`
+	Order       string `json:"order,omitempty"` // e.g. "close,closenow,close"
+	PendingRead bool   `json:"pending_read,omitempty"`
+	// Mid: state of the closer's read side when it calls Close (kind local): "" | unread-queued (a whole
+	// message sent by the peer is still unread) | partial-final | partial-first | partial-second (a Reader
+	// was taken and only part of a single-frame message / of the first / of the final fragment was read) | full-read
+	Mid string `json:"mid_message,omitempty"`
 }
 
 func newConnPair(client bool) (*websocket.Conn, *rawPeer, *pipeEnd) {
@@ -58,6 +62,38 @@ func runCloseCase(cc closeCase) (string, string) {
 			time.Sleep(2 * time.Millisecond)
 		} else {
 			close(readDone)
+		}
+		if cc.Mid != "" {
+			msg := bytes.Repeat([]byte("m"), 300)
+			switch cc.Mid {
+			case "partial-first", "partial-second":
+				peer.writeFrame(RawFrame{Fin: false, Op: 2, Payload: msg[:150]})
+				peer.writeFrame(RawFrame{Fin: true, Op: 0, Payload: msg[150:]})
+			default:
+				peer.writeFrame(RawFrame{Fin: true, Op: 2, Payload: msg})
+			}
+			rctx, rcancel := context.WithTimeout(context.Background(), 3*time.Second)
+			switch cc.Mid {
+			case "partial-final", "partial-first", "partial-second":
+				k := 100
+				if cc.Mid == "partial-second" {
+					k = 200
+				}
+				_, r, err := c.Reader(rctx)
+				if err == nil {
+					_, err = io.ReadFull(r, make([]byte, k))
+				}
+				if err != nil {
+					rcancel()
+					return "read-before-close-failed", fmt.Sprintf("%+v: %v", cc, err)
+				}
+			case "full-read":
+				if _, b, err := c.Read(rctx); err != nil || len(b) != len(msg) {
+					rcancel()
+					return "read-before-close-failed", fmt.Sprintf("%+v: %d bytes, %v", cc, len(b), err)
+				}
+			}
+			rcancel()
 		}
 		// peer: echo the first Close frame it sees, then go away
 		var got *RawFrame
@@ -154,7 +190,7 @@ func runCloseCase(cc closeCase) (string, string) {
 			payload = nil
 		}
 		peer.writeFrame(RawFrame{Fin: true, Op: 8, Payload: payload})
-		pend.w.CloseWith(nil)          // nothing more from the peer
+		pend.w.CloseWith(nil)              // nothing more from the peer
 		pend.r.CloseWith(io.ErrClosedPipe) // and writes to it fail
 		ctx, cancel := context.WithTimeout(context.Background(), 8*time.Second)
 		defer cancel()
@@ -381,12 +417,16 @@ func runC06(ctx *runCtx) {
 	for _, client := range []bool{true, false} {
 		cases = append(cases, closeCase{Kind: "local", Client: client, Code: 1000, Reason: hx([]byte("bye")), PendingRead: true})
 		cases = append(cases, closeCase{Kind: "local", Client: client, Code: 4001, Reason: "-", PendingRead: true})
+		for _, mid := range []string{"unread-queued", "partial-final", "partial-first", "partial-second", "full-read"} {
+			cases = append(cases, closeCase{Kind: "local", Client: client, Code: 1000, Reason: hx([]byte("done")), Mid: mid})
+			cases = append(cases, closeCase{Kind: "local", Client: client, Code: 3000, Reason: "-", Mid: mid})
+		}
 		for _, o := range []string{"close,close", "close,closenow", "closenow,close", "closenow,closenow", "close,close,closenow", "closenow,close,close", "close,closenow,close"} {
 			cases = append(cases, closeCase{Kind: "order", Client: client, Order: o})
 		}
 	}
 	type res struct {
-		i      int
+		i     int
 		sh, w string
 	}
 	out := make(chan res, len(cases))
@@ -410,7 +450,7 @@ func runC06(ctx *runCtx) {
 	for range cases {
 		r := <-out
 		cc := cases[r.i]
-		rep.eval(fmt.Sprintf("e2e/%s/%v/%d/%d/%s/%v", cc.Kind, cc.Client, cc.Code, len(cc.Reason), cc.Order, cc.PendingRead))
+		rep.eval(fmt.Sprintf("e2e/%s/%v/%d/%d/%s/%v/%s", cc.Kind, cc.Client, cc.Code, len(cc.Reason), cc.Order, cc.PendingRead, cc.Mid))
 		rep.count("e2e:" + cc.Kind)
 		if r.sh != "" {
 			rep.violate(Violation{Kind: "property", Shape: r.sh, What: r.w, Replay: cc})
